@@ -269,6 +269,12 @@ class Runner:
     # ----- oracles
     def verdict(self, s, state, lm, which=None):
         """I1-I5 on `state`; known findings are recorded, anything else raises Violation"""
+        if getattr(s, 'tainted', None) and state is s.state:
+            # the session continues on a state produced by a PERTURBED revert_intro (known findings I1/I3/I4
+            # revert_intro): everything later in this lineage is a consequence of that damage, e.g. recorded fact ids
+            # that now denote the goal line.  Copy isolation (I6) is still judged by the callers.
+            self.ctr.inc('states_not_judged_after_perturbed_revert_intro')
+            return set()
         s.establish()
         u0 = self.proxy.unknown
         with op_alarm(120):
@@ -511,6 +517,8 @@ class Runner:
                     s.ptr += 1
                 s.last_method = step.get('method_name')
                 self.verdict(s, s.state, step.get('method_name'))
+                if k == 'perturb' and step.get('method_name') == 'revert_intro':
+                    s.tainted = 'revert_intro'
             else:
                 # judged, then discarded
                 carried = set(s.carried)
@@ -522,6 +530,9 @@ class Runner:
             st, ptr, dg, carried = s.undo.pop()
             s.state, s.ptr = st, ptr
             s.carried = set(carried)
+            if getattr(s, 'tainted', None):
+                # conservative: an undo may or may not leave the damaged lineage; stay tainted
+                pass
             log.add(seq, 'undo', s.idx, dg)
             self.verdict(s, s.state, 'undo')
         elif k == 'fail_on_copy':
